@@ -128,6 +128,7 @@ fn dispatch(ctx: &Ctx) -> bool {
         "C18" => props::artifacts::run_c18(ctx),
         "C32" => props::secrets::run_c32(ctx),
         "C33" => props::secrets::run_c33(ctx),
+        "C34" => props::leanspec::run(ctx),
         "C23" => props::publish::run(ctx),
         "C28" => props::config::run_c28(ctx),
         "C29" => props::config::run_c29(ctx),
